@@ -7,6 +7,7 @@ The schedule fields (lazy … choices) describe how the harness produced the tra
 import BtcVerif.Oracle.Util
 import BtcVerif.Model.Stream
 import BtcVerif.Model.Reorder
+import BtcVerif.Model.Rpc
 
 namespace BtcVerif.Oracle
 open BtcVerif
@@ -132,12 +133,33 @@ def reorderRun (from_ n events : String) : Option String := do
   let res := match s.res with | .done => "done" | .err => "err" | .running => "running"
   return s!"ok {res} {",".intercalate (s.out.map reorderIndex)}"
 
+/-! `rpc.classify <status> <body hex> <parseFails> <objNil> <errorNil> <resultNil>`: the verdict of
+`Model/Rpc.lean` (`ok ok | cred | retry | format | rpc`) -/
+def rpcFlag : String → Option Bool
+  | "1" => some true
+  | "0" => some false
+  | _ => none
+
+def rpcClassify (status body pf on en rn : String) : Option String := do
+  let st ← status.toInt?
+  let b ← parseHex body
+  let f1 ← rpcFlag pf
+  let f2 ← rpcFlag on
+  let f3 ← rpcFlag en
+  let f4 ← rpcFlag rn
+  let bodyStr := String.ofList (b.map (fun x => Char.ofNat x.toNat))
+  let r : Model.Rpc.Reply := ⟨st, bodyStr, f1, f2, f3, f4⟩
+  return match Model.Rpc.classify r with
+    | .ok => "ok ok" | .invalidCredentials => "ok cred" | .retry => "ok retry"
+    | .invalidFormat => "ok format" | .rpcFailure => "ok rpc"
+
 end StreamOp
 
 def opStream (op : String) (args : List String) : Option String :=
   match op, args with
   | "stream.validate", [mode, from_, n, p, _lazy, _seed, _faults, _cancel, _choices, events] =>
     some ((StreamOp.validate mode from_ n p events).getD "err")
+  | "rpc.classify", [st, body, pf, on, en, rn] => some ((StreamOp.rpcClassify st body pf on en rn).getD "err")
   | "reorder.run", [_mode, from_, n, _p, _lazy, _seed, _faults, _cancel, _choices, events] =>
     some ((StreamOp.reorderRun from_ n events).getD "err")
   | _, _ => none
